@@ -43,7 +43,7 @@ FIXED_WITNESSES = {
 # sha1 of the normalised text (comments stripped, white space collapsed) of everything Model.v was written from.
 # Regenerate with `python3 -m checks.c04_rt --print-hashes` AFTER re-reading the changed function against Model.v.
 MODEL_HASHES = {
-    'loader.js:gcArrayToString+builtins': '9d83b2f3df73939c',
+    'loader.js:gcArrayToString+builtins': 'a51b1e43624d0002',
     'ts:__Process$panic': 'd7f6d5f461abf78f',
     'ts:__Process$println': 'a0cc2947470b5082',
     'ts:__Str$concat': '4cf123b518a18ee9',
